@@ -56,7 +56,7 @@ func subsBefore(ops []c11Op, pos int) int {
 func c11Random(r *hx.Rand, maxLen int) []c11Op {
 	n := r.Range(4, maxLen)
 	var ops []c11Op
-	nsub, closed := 0, false
+	nsub, closes := 0, 0
 	stallHeavy := r.Chance(1, 2)
 	ops = append(ops, sub(r.Chance(1, 2) && !stallHeavy))
 	nsub++
@@ -64,7 +64,9 @@ func c11Random(r *hx.Rand, maxLen int) []c11Op {
 		x := r.Intn(100)
 		switch {
 		case x < 10 && nsub < 4:
-			ops = append(ops, sub(r.Chance(1, 2)))
+			o := sub(r.Chance(1, 2))
+			o.D = r.Chance(1, 8)
+			ops = append(ops, o)
 			nsub++
 		case x < 55:
 			k := 1
@@ -80,9 +82,9 @@ func c11Random(r *hx.Rand, maxLen int) []c11Op {
 			ops = append(ops, rall(r.Intn(nsub)))
 		case x < 90:
 			ops = append(ops, cancelOp(r.Intn(nsub)))
-		case x < 94 && !closed:
+		case x < 94 && closes < 2:
 			ops = append(ops, closeOp())
-			closed = true
+			closes++
 		default:
 			ops = append(ops, c11Op{Op: "bcast"})
 		}
@@ -105,6 +107,20 @@ func c11Gen(ctx *core.Ctx) {
 			for i := 0; i < subsBefore(ops, pos); i++ {
 				run(c11Input{Kind: "script", Ops: insertAt(ops, pos, cancelOp(i))})
 			}
+		}
+		// TWO Close calls: the second right after the first at every position, and sampled pairs
+		for pos := 0; pos <= len(ops); pos += 1 {
+			run(c11Input{Kind: "script", Ops: insertAt(insertAt(ops, pos, closeOp()), pos+1, closeOp())})
+		}
+		npairs := 10
+		if ctx.Thorough {
+			npairs = 150
+		}
+		for k := 0; k < npairs; k++ {
+			p1 := ctx.R.Intn(len(ops) + 1)
+			o1 := insertAt(ops, p1, closeOp())
+			p2 := ctx.R.Range(p1+1, len(o1))
+			run(c11Input{Kind: "script", Ops: insertAt(o1, p2, closeOp())})
 		}
 		// Close AND a cancellation, sampled pairs of positions
 		pairs := 12
@@ -153,14 +169,38 @@ func c11Gen(ctx *core.Ctx) {
 	for k := 0; k < nchurn; k++ {
 		run(c11Input{Kind: "script", Ops: c11ChurnRandom(ctx.R, ctx.Thorough)})
 	}
+	// F. a departure (of EVERY subscriber) while a Broadcast is blocked in the middle of the list
+	for _, ops := range c11BlockedDeparture() {
+		run(c11Input{Kind: "script", Ops: ops})
+	}
+	// G. the same channel subscribed several times
+	for _, copies := range []int{2, 3} {
+		for _, variadic := range []bool{false, true} {
+			run(c11Input{Kind: "dup", Copies: copies, Bcasts: ctx.R.Range(3, 25), Variadic: variadic})
+		}
+		nb := ctx.R.Range(3, 25)
+		for _, m := range []int{0, 1, ctx.R.Range(1, nb), nb} {
+			run(c11Input{Kind: "dup", Copies: copies, Bcasts: nb, Leave: m + 1})
+		}
+	}
+	// H. concurrent runs during which Close is called (once, twice, three times)
+	ncc := 40
+	if ctx.Thorough {
+		ncc = 1500
+	}
+	for k := 0; k < ncc; k++ {
+		run(c11Input{Kind: "conc", Stay: ctx.R.Range(1, 6), G: ctx.R.Range(2, 5), K: ctx.R.Range(3, 12),
+			Leaver: ctx.R.Chance(1, 3), Late: ctx.R.Chance(1, 2), Closes: ctx.R.Range(1, 3),
+			Spin: []int{1, 50, 500, 5000}[ctx.R.Intn(4)], Seed: ctx.R.U64() >> 1})
+	}
 	// E. rushed runs: nothing may be handed over after Close returned
 	reps := 120
 	if ctx.Thorough {
 		reps = 3000
 	}
 	for _, mode := range []string{"seq", "par"} {
-		for _, sb := range [][2]int{{1, 1}, {1, 3}, {2, 1}, {3, 10}, {1, 10}, {4, 2}} {
-			run(c11Input{Kind: "rush", Subs: sb[0], Bcasts: sb[1], Mode: mode, Reps: reps})
+		for _, sb := range [][3]int{{1, 1, 1}, {1, 3, 1}, {2, 1, 2}, {3, 10, 1}, {1, 10, 3}, {4, 2, 2}} {
+			run(c11Input{Kind: "rush", Subs: sb[0], Bcasts: sb[1], Closes: sb[2], Mode: mode, Reps: reps})
 		}
 	}
 }
@@ -203,8 +243,13 @@ func c11ChurnRandom(r *hx.Rand, thorough bool) []c11Op {
 	var live []int
 	nsub := 0
 	addSub := func() {
-		ops = append(ops, sub(r.Chance(3, 4)))
-		live = append(live, nsub)
+		o := sub(r.Chance(3, 4))
+		if r.Chance(1, 6) {
+			o.D = true
+		} else {
+			live = append(live, nsub)
+		}
+		ops = append(ops, o)
 		nsub++
 	}
 	addSub()
@@ -228,4 +273,42 @@ func c11ChurnRandom(r *hx.Rand, thorough bool) []c11Op {
 	}
 	ops = append(ops, c11Op{Op: "bcast"}, c11Op{Op: "bcast"})
 	return ops
+}
+
+// c11BlockedDeparture: n subscribers of which the k-th never reads; 12 Broadcasts (the 12th
+// blocks at index k, holding the lock, with the subscribers behind k not yet served); then
+// subscriber j leaves — EVERY j, before, at and behind k — while the Broadcast is blocked; then
+// the blocked one is released (it reads one / reads everything / leaves too / Close), more
+// Broadcasts follow and everybody reads out: judged per subscriber.
+func c11BlockedDeparture() [][]c11Op {
+	var out [][]c11Op
+	for n := 2; n <= 4; n++ {
+		for k := 0; k < n; k++ {
+			for j := 0; j < n; j++ {
+				for rel := 0; rel < 4; rel++ {
+					if (n == 4 && rel >= 2) || (j == k && rel == 2) {
+						continue
+					}
+					var ops []c11Op
+					for i := 0; i < n; i++ {
+						ops = append(ops, sub(i != k))
+					}
+					ops = append(ops, bc(12), cancelOp(j))
+					switch rel {
+					case 0:
+						ops = append(ops, rd(k, 1))
+					case 1:
+						ops = append(ops, rall(k))
+					case 2:
+						ops = append(ops, cancelOp(k))
+					case 3:
+						ops = append(ops, closeOp())
+					}
+					ops = append(ops, bc(2), sub(true), bc(1), rall(k), bc(1))
+					out = append(out, c11Expand(ops))
+				}
+			}
+		}
+	}
+	return out
 }
